@@ -230,8 +230,8 @@ def run(prop, tier, seed, t0):
     bins, notes, failed = plan.bins_for(cfgs, ('rel', 'chk') if tier == 'thorough' else ('rel',))
     if failed:
         return plan.fail_build(prop, failed)
-    size = 400 if tier == 'quick' else 12000
-    nt = 8 if tier == 'quick' else 32
+    size = 400 if tier == 'quick' else 24000
+    nt = 8 if tier == 'quick' else 64
     tasks = plan.spread_tasks('vlib.props.c03', 'task', prop, seed, size, plan.plain(bins), ntasks=nt)
     from . import c03v
     tasks += c03v.tasks(prop, tier, seed, bins)
